@@ -463,6 +463,11 @@ func (e *Engine) verifyFunction(key string) (res *FuncResult) {
 	env := f.baseEnv(f.heap)
 	var deferred []Let
 	for _, l := range ct.Lets {
+		if exprMentionsCall(l.E, "local") {
+			// values of locals exist at the return sites only
+			deferred = append(deferred, l)
+			continue
+		}
 		v, ok := tryEval(env, l.E)
 		if !ok {
 			deferred = append(deferred, l)
